@@ -30,6 +30,46 @@ from common import exc_name, hx
 logging.disable(logging.CRITICAL)
 
 
+class FormatProbe(logging.Handler):
+    """Logging as an application with debug logging would have it: every record the code emits is
+    formatted (`record.getMessage()`, i.e. `msg % args` with str()/repr() of PDUs, sockets, targets).
+    A formatting failure is recorded, not raised (logging.StreamHandler reports it on stderr)."""
+
+    def __init__(self):
+        logging.Handler.__init__(self, level=1)
+        self.errors = []
+        self.records = 0
+
+    def emit(self, record):
+        self.records += 1
+        try:
+            record.getMessage()
+        except Exception as e:  # noqa
+            self.errors.append((exc_name(e), "%s:%d" % (record.pathname.split("/nfc/")[-1], record.lineno), str(record.msg)[:60]))
+
+    def take(self):
+        e, self.errors = self.errors, []
+        return e
+
+
+PROBE = FormatProbe()
+
+
+def enable_logging():
+    """all nfc loggers at the lowest level, records formatted by PROBE, nothing printed"""
+    logging.disable(logging.NOTSET)
+    lg = logging.getLogger("nfc")
+    lg.setLevel(1)
+    lg.propagate = False
+    if PROBE not in lg.handlers:
+        lg.addHandler(PROBE)
+    return PROBE
+
+
+def disable_logging():
+    logging.disable(logging.CRITICAL)
+
+
 class Hang(BaseException):
     """the code under test entered a wait that nobody can end"""
 
